@@ -82,6 +82,46 @@ def cartVectorLaplace (dxs : List K) (a : Arr K) (i : Nat) (sp : List Int) : K :
 def cartTensorDivergence (m : Method) (dxs : List K) (a : Arr K) (i : Nat) (sp : List Int) : K :=
   cartDivergence m dxs a [(i:Int)] sp
 
+/-! ### 2-d Cartesian 9-point Laplacian (`_make_laplace_numba_2d` with `corner_weight ≠ 0`)
+
+The kernel first overwrites the four corner ghost points of the padded `(nx+2) × (ny+2)` array
+(`make_corner_point_setter_2d`: copied across a periodic axis, interpolated otherwise) and then applies the
+3 × 3 stencil. -/
+
+/-- the value written to the corner `(ci, cj)` (`false` = index 0, `true` = index `n+1`) -/
+def cornerValue (px py : Bool) (nx ny : Nat) (a : Arr K) (ci cj : Bool) : K :=
+  let I : Int := if ci then (nx:Int) + 1 else 0
+  let J : Int := if cj then (ny:Int) + 1 else 0
+  if px then a [if ci then 1 else (nx:Int), J]
+  else if py then a [I, if cj then 1 else (ny:Int)]
+  else (a [I, if cj then (ny:Int) else 1] + a [if ci then (nx:Int) else 1, J]) / ((2:Nat):K)
+
+/-- the padded array after `set_corner_points` -/
+def withCorners (px py : Bool) (nx ny : Nat) (a : Arr K) : Arr K := fun idx =>
+  match idx with
+  | [i, j] =>
+    if i = 0 ∧ j = 0 then cornerValue px py nx ny a false false
+    else if i = (nx:Int) + 1 ∧ j = 0 then cornerValue px py nx ny a true false
+    else if i = 0 ∧ j = (ny:Int) + 1 then cornerValue px py nx ny a false true
+    else if i = (nx:Int) + 1 ∧ j = (ny:Int) + 1 then cornerValue px py nx ny a true true
+    else a idx
+  | _ => a idx
+
+/-- the 3 × 3 stencil with corner weight `w` applied to an array (no corner treatment) -/
+def stencil9 (w dx dy : K) (b : Arr K) (i j : Int) : K :=
+  let dxm2 := ((1:Nat):K) / (dx * dx)
+  let dym2 := ((1:Nat):K) / (dy * dy)
+  let dm2 := dxm2 + dym2
+  let cw := dm2 * w / ((4:Nat):K)
+  cw * (b [i-1, j-1] + b [i-1, j+1] + b [i+1, j-1] + b [i+1, j+1])
+    + dxm2 * (((1:Nat):K) - w) * (b [i-1, j] + b [i+1, j])
+    + dym2 * (((1:Nat):K) - w) * (b [i, j-1] + b [i, j+1])
+    + dm2 * (w - ((2:Nat):K)) * b [i, j]
+
+/-- the operator: corner points set, then the stencil -/
+def cartLaplace9 (w dx dy : K) (px py : Bool) (nx ny : Nat) (a : Arr K) (i j : Int) : K :=
+  stencil9 w dx dy (withCorners px py nx ny a) i j
+
 /-! ### radially symmetric grids: `r i` is the centre of full-array cell `i`, `dr` the spacing -/
 
 /-- cell centre `r_min + (i - 1/2) dr` of full-array index `i` -/
